@@ -152,18 +152,93 @@ Definition init_ok (st : state) : bool :=
     match rec_get (snd kv) st with Some _ => true | None => false end &&
     forallb (fun kv' : addr * N => addr_eqb (fst kv) (fst kv') || negb (snd kv =? snd kv')) (s_amap st)) (s_amap st).
 
-Fixpoint walk (c : cfg) (wf : bool) (ms is_ : state) (steps : list hs) : list N :=
+(* ---- content oracle ---------------------------------------------------------------------------------------
+   What each injected operation CARRIED, recorded from the history itself (the messages are the fields of the
+   bytes that were injected, decoded into a fresh struct): tunnel (first address), the overlay addresses the
+   information is about, and the underlay addresses / relays it named.  Every underlay address and relay stored
+   under owner o in the list of overlay address A must have been carried by a message of o's tunnel about A, and
+   everything served in a query answer about A must have been carried by some recorded message about A. Nothing a
+   message did not carry may appear (e.g. fields left over in the handler from an earlier message). *)
+Record orec := mkOr {
+  o_owner : addr; o_about : list addr;
+  o_v4 : list (N * N); o_v6 : list (N * N * N); o_rel : list addr
+}.
+
+Definition oracle_of (o : hop) : list orec :=
+  match o with
+  | HMsg f (PMsg m) =>
+      if m_type m =? t_host_update then [mkOr (fst f) (all_from f) (m_v4 m) (m_v6 m) (relays m)]
+      else if m_type m =? t_host_query_reply then
+        match claimed m with Some a => [mkOr (fst f) [a] (m_v4 m) (m_v6 m) (relays m)] | None => [] end
+      else []
+  | HMsg _ PGarbage => []
+  | HLearn f ap =>
+      if fst (fst ap) then [mkOr (fst f) (all_from f) [(snd (fst ap), snd ap)] [] []]
+      else let '(hi, lo) := to_hl (fst ap) in [mkOr (fst f) (all_from f) [] [(hi, lo, snd ap)] []]
+  end.
+
+(* what the initial addrMap (static hosts) holds counts as carried *)
+Definition oracle_init (st : state) : list orec :=
+  flat_map (fun re : N * rlist =>
+    map (fun oe : addr * centry =>
+      mkOr (fst oe) (rl_addrs (snd re)) (opt_list (ce_l4 (snd oe)) ++ ce_v4 (snd oe))
+           (opt_list (ce_l6 (snd oe)) ++ ce_v6 (snd oe)) (ce_rel (snd oe))) (rl_cache (snd re))) (s_recs st).
+
+(* the record is about an address registered (in [st]) to list [rid] *)
+Definition about_rid (st : state) (rid : N) (r : orec) : bool :=
+  existsb (fun b => match amap_get b st with Some x => x =? rid | None => false end) (o_about r).
+
+Definition carried (recs : list orec) (v4 : list (N * N)) (v6 : list (N * N * N)) (rel : list addr) : bool :=
+  forallb (fun x => existsb (fun r => existsb (nn_eqb x) (o_v4 r)) recs) v4 &&
+  forallb (fun x => existsb (fun r => existsb (nnn_eqb x) (o_v6 r)) recs) v6 &&
+  forallb (fun x => existsb (fun r => mem x (o_rel r)) recs) rel.
+
+(* every entry this step changed holds only what its owner's tunnel carried about that list *)
+Definition content_ok (orc : list orec) (p d : state) : bool :=
+  forallb (fun ro : N * addr =>
+    match rec_get (fst ro) d with
+    | None => false
+    | Some rl =>
+        match aget addr_eqb (snd ro) (rl_cache rl) with
+        | None => false
+        | Some e =>
+            carried (filter (fun r => addr_eqb (o_owner r) (snd ro) && about_rid d (fst ro) r) orc)
+                    (opt_list (ce_l4 e) ++ ce_v4 e) (opt_list (ce_l6 e) ++ ce_v6 e) (ce_rel e)
+        end
+    end) (changed_entries p d).
+
+(* every address / relay in a message sent about address A (a query answer about A, a punch request about A) was
+   carried by a recorded message about A *)
+Definition served_ok (orc : list orec) (p : state) (outs : list out) : bool :=
+  forallb (fun o =>
+    match o with
+    | OSend _ m =>
+        if (m_type m =? t_host_query_reply) || (m_type m =? t_host_punch) then
+          match claimed m with
+          | None => false
+          | Some a =>
+              match amap_get a p with
+              | None => false
+              | Some rid => carried (filter (about_rid p rid) orc) (m_v4 m) (m_v6 m) (relays m)
+              end
+          end
+        else is_nil (m_v4 m) && is_nil (m_v6 m) && is_nil (relays m)
+    | _ => true
+    end) outs.
+
+Fixpoint walk (c : cfg) (wf : bool) (orc : list orec) (ms is_ : state) (steps : list hs) : list N :=
   match steps with
   | [] => []
   | s :: r =>
       let '(ms', mo) := hstep c ms (h_op s) in
       let d := apply_delta is_ s in
+      let orc' := oracle_of (h_op s) ++ orc in
       flag 1 (list_eqb out_eqb mo (h_outs s) && state_eqb ms' d) ++
       flag 2 (match h_op s with
               | HMsg f pk => spec_msg c wf is_ d f pk (h_outs s)
               | HLearn f _ => spec_learn is_ d f (h_outs s)
-              end) ++
-      walk c wf ms' d r
+              end && content_ok orc' is_ d && served_ok orc is_ (h_outs s)) ++
+      walk c wf orc' ms' d r
   end.
 
 Fixpoint dedup (l : list N) : list N :=
@@ -173,5 +248,5 @@ Definition check_case (cs : case) : list N :=
   match cs with
   | CHist c init steps =>
       let wf := wf_senders (map (fun s => all_from (op_sender (h_op s))) steps) && init_ok init in
-      dedup (walk c wf init init steps)
+      dedup (walk c wf (oracle_init init) init init steps)
   end.
